@@ -2,18 +2,20 @@
 
 PROP = {
     "targets": ["Props/C15.vo", "Corr/CorrCore.vo"],
-    "cone": ["BC/ModeProofs.v"],
+    "cone": ["BC/ModeProofs.v", "Sem/ModeAgree.v"],
     "harness": "c15",
     "mismatch_div": 16,
     "failure_bits": 8,
-    "trusted": ["reference semantics and VM model tied to the implementation by the executed correspondence on typed and untyped trees"],
-    "assumptions": ["environment functions behave the same in every mode"],
-    "explanation": "specialised-instruction lemmas are theorems; the eight variants are compared pairwise on the implementation",
+    "trusted": ["reference semantics and VM model tied to the implementation by the executed correspondence on typed and untyped trees",
+                "the annotation conditions of C15_modes_agree (`ok`: retyped argument sites have a parameter of exactly that numeric kind) are what static typing of the callee gives; that the checker establishes them is C03's domain and is validated by the executed checker correspondence, not proved here"],
+    "assumptions": ["environment functions behave the same in every mode (fn_run independent of which environment shape is the receiver)",
+                    "fast_sound: a function flagged fast has the signature func(...interface{}) interface{}"],
+    "explanation": "whole-expression agreement of all annotation / fast-flag / map-environment variants is a theorem about the reference semantics (strong induction on tree size); compile_correct (C01) transfers it to compiled code per tree; the eight variants are also compared pairwise on the implementation",
 }
 
 MANIFEST = {
-    "text": "Coq theorems: every type-directed specialisation of the compiler computes what the generic instruction computes whenever its static precondition holds dynamically (OpEqualInt / OpEqualString vs OpEqual; OpFetchMap vs OpFetch on a map environment; OpCallFast vs OpCall on a func(...interface{}) interface{}; typed integer literals vs conversion), for all values; struct value, pointer to it and map with the same members resolve members identically. Whole-expression agreement of the variants is judged on the implementation: Eval, Compile without Env, with Env(struct), Env(*struct), Env(map), with and without AllowUndefinedVariables, on every generated expression x environment, all succeeding variants pairwise equal (values with dynamic types and call logs); typed and untyped trees are also run through the Coq compiler, VM and reference semantics.",
-    "design_ref": "DESIGN.md §4 C15",
-    "note": "PARTIAL: the theorem covers each specialised instruction / lookup for all values; the whole-expression statement 'all succeeding variants agree' is not an induction in Coq, it is decided by the exhaustive pairwise comparison on the implementation plus compile_correct for each tree.",
-    "technique": "Coq proof of instruction-level equivalences (for all values) + pairwise differential execution of the eight compile/environment variants",
+    "text": "Coq theorems (kernel-checked on every run). C15_modes_agree: for ALL expressions (22 node kinds, strong induction on tree size), environments, closure contexts and run states, two trees that differ only in the checker's kind annotations (typed integer literals, OpEqualInt / OpEqualString selection) and Fast flags - i.e. the compilation variants of one source - and that both evaluate successfully in the reference semantics return the SAME value, the same call log and the same allocation count, provided the annotations are the sound ones (plain literals are int; a retyped literal-only argument tree has a callee parameter of exactly that kind). C15_modes_agree_gen / _mapenv / _struct_ptr / _struct_map: the same with OpFetchMap vs OpFetch on a map environment, struct vs pointer-to-struct vs map[string]interface{} with the same members (hypotheses on method sets and receiver-independence of functions stated). The statement for the trees the pinned checker REALLY produces (literals retyped below an argument that also has non-literal leaves) is kept as C15_modes_agree_full_statement and REFUTED by a vm_compute witness (`Half(I / 2 + Y)`: 0.25 typed, 0 untyped) = known finding C15-arg-retype-mixed, found by this proof and replayed on the implementation; C15_modes_agree_partial is the full statement under the decidable carve-out wf, and C15_ok_is_ok_full_and_wf shows the carve-out is exact. Instruction-level lemmas (OpEqualInt/OpEqualString vs OpEqual, OpFetchMap vs OpFetch, OpCallFast vs OpCall, typed literal = conversion) for all values. Transfer to compiled code is compile_correct (C01) per tree. On the implementation: Eval, Compile without Env, with Env(struct), Env(*struct), Env(map) with and without AllowUndefinedVariables, no Env on a map - 8 variants of every generated expression (incl. a family of retyped arithmetic arguments) x environment, all succeeding variants pairwise equal (values with dynamic types, call logs); typed and untyped trees are run through the Coq compiler, VM and reference semantics.",
+    "design_ref": "DESIGN.md §4 C15, §12",
+    "note": "Proved on the reference semantics; that checker.Check establishes the annotation conditions (`ok`) is not proved (C03's soundness proof is the place), it is validated by the checker correspondence. Known finding C15-arg-retype-mixed.",
+    "technique": "Coq proof: strong induction on expression size over a two-tree relation (same shape up to annotations), kind-rigidity of reflect.Call's assignability for retyped arguments; vm_compute refutation of the unrestricted statement; pairwise differential execution of the eight compile/environment variants",
 }
